@@ -207,6 +207,12 @@ Definition wf_fed (f : fed) : bool :=
 Definition permitted (mo : list mtype) : Prop :=
   NoDup mo /\ In Exact mo /\ In Prefix mo /\ In Begin mo /\ In Regex mo.
 
+(* boolean form, evaluated on the order the real configuration parser handed over *)
+Definition permittedb (mo : list mtype) : bool :=
+  (length mo =? 4) &&
+  existsb (mtype_eqb Exact) mo && existsb (mtype_eqb Prefix) mo &&
+  existsb (mtype_eqb Begin) mo && existsb (mtype_eqb Regex) mo.
+
 (* hosts visited: each host of the entries exactly once *)
 Definition host_order_ok (hostorder : list str) (entries : list entry) : Prop :=
   NoDup hostorder /\ forall e, In e entries -> In (ehost e) hostorder.
